@@ -95,7 +95,7 @@ def mu_mix_owners(w, home):
             s = {'C11'}
     elif o == 'waitn-result':
         s = {'C11'}
-    elif o in ('cond-during-write', 'cond-unheld'):
+    elif o in ('cond-during-write', 'cond-unheld', 'cond-true-asleep'):
         s = {'C06'}
     elif o == 'final-word':
         s = {'C01', 'C02'}
@@ -105,8 +105,8 @@ def mu_mix_owners(w, home):
             s |= {'C01'}
     else:
         s = {home}
-    if w.get('check_params', {}).get('debug') or home == 'C16':
-        s.add('C16') if home == 'C16' else None
+    if home == 'C16':
+        s.add('C16')   # the C16 check differs from the others only by the debug-state callers it adds
     return s
 
 
@@ -142,6 +142,64 @@ PLANS = {
 }
 
 
+MU = dict(owners=mu_mix_owners)
+PLANS['C02'] = dict(
+    rule=RULE_B + RULE_A + 'non-trivial = at least one acquisition or wait slept, or a try-lock failed.',
+    groups=[
+        G('mu_mix', 'c-plain', 'B', 12, 3000, **MU),
+        G('mu_mix', 'c-plain', 'A', 4, 1500, thorough=40000, **MU),
+    ],
+)
+PLANS['C16'] = dict(
+    rule=RULE_B + RULE_A + 'non-trivial = the execution contained contention and debug-state calls.',
+    groups=[
+        G('mu_mix', 'c-plain', 'B', 8, 2000, params=dict(debug=1), **MU),
+        G('mu_mix', 'c-plain', 'A', 4, 1500, params=dict(debug=1), thorough=40000, **MU),
+    ],
+)
+PLANS['C13'] = dict(
+    rule=RULE_B + RULE_A + 'non-trivial = at least one wait slept.',
+    groups=[
+        G('mu_mix', 'c-asan', 'B', 8, 1500, **MU),
+        G('mu_mix', 'c-asan', 'A', 8, 1000, thorough=20000, **MU),
+    ],
+)
+
+
+PLANS['C06'] = dict(
+    rule=RULE_B + RULE_A + 'non-trivial = at least one conditional wait of the execution slept.',
+    groups=[
+        G('cond_rounds', 'c-plain', 'B', 12, 4000, **MU),
+        G('cond_rounds', 'c-plain', 'A', 4, 1500, thorough=40000, **MU),
+        G('mu_mix', 'c-plain', 'B', 4, 2000, **MU),
+    ],
+)
+PLANS['C02']['groups'] += [G('cond_rounds', 'c-plain', 'B', 8, 4000, **MU), G('cond_rounds', 'c-plain', 'A', 2, 1500, thorough=40000, **MU)]
+
+
+def c15_owners(w, home):
+    return {'C15'}
+
+
+NCASE15 = 11 * 17
+C15G = dict(owners=c15_owners, watchdog=15, hang_is_violation=lambda w: (w.get('round_description') or {}).get('operation', 'hang').replace(' ', '_'),
+            rerun_same_seed=True, thorough=NCASE15, no_scale=True)
+PLANS['C15'] = dict(
+    rule='the grid operation x deadline-kind (11 timed operations x 17 deadline values incl. zero, pre-epoch, INT64_MIN+1 s, now, now+d, no_deadline-1ns, no_deadline) '
+         'is enumerated completely, one case per round, on the real kernel (Mode A) in the C, C++ and ASan+UBSan builds and on the modelled futex (Mode B); '
+         'distinct = distinct (operation, deadline kind, build); every case is non-trivial (each is a boundary value of the quantifier).',
+    groups=[
+        G('deadlines', 'c-plain', 'A', 1, NCASE15, **C15G),
+        G('deadlines', 'c-asan', 'A', 1, NCASE15, **C15G),
+        G('deadlines', 'cpp-plain', 'A', 1, NCASE15, **C15G),
+        G('deadlines', 'c-plain', 'B', 1, NCASE15, **C15G),
+        G('deadlines', 'cpp-asan', 'A', 1, NCASE15, tier='thorough', **C15G),
+        G('deadlines', 'c-plain', 'A', 4, NCASE15, tier='thorough', params=dict(noperturb=0), **C15G),
+    ],
+    assumptions=['a hang is reported only after the watchdog fired in two consecutive executions of the same case'],
+)
+
+
 def expand(prop, tier, scale=1.0):
     spec = PLANS[prop]
     out = []
@@ -152,7 +210,8 @@ def expand(prop, tier, scale=1.0):
         if tier == 'thorough':
             g['rounds'] = g['thorough_rounds']
             g['timeout'] = g.get('timeout', 1500) * 4
-        g['rounds'] = max(1, int(g['rounds'] * scale))
+        if not g.get('no_scale'):
+            g['rounds'] = max(1, int(g['rounds'] * scale))
         out.append(g)
     return out
 
